@@ -28,6 +28,16 @@ PAIR = (1, 2)
 NOTHING = None
 UNUSED = 10
 ''',
+    "cmt.py": '''
+import dds
+
+def inner():
+    # first wording
+    return 1
+
+def top():
+    return dds.keep("/cmt/inner", inner) + 1
+''',
     "hist.py": '''
 def g():
     return 1
@@ -157,7 +167,9 @@ if mode == "plain":
     import dds._api as api
     api.keep = dds.keep
     A._keep = dds.keep
-import corp.pipe as pipe
+pkg = os.environ.get("CORPUS_PKG", "corp")
+import importlib
+pipe = importlib.import_module(pkg + ".pipe")
 if mode == "plain":
     print(json.dumps({"value": repr(pipe.root())})); sys.exit(0)
 if mode == "history":
@@ -178,8 +190,26 @@ if mode == "history":
         err = None
     except BaseException as e:
         r2, err = None, "%s: %s" % (type(e).__name__, str(e)[:160])
-    print(json.dumps({"value": repr((r1, r2)), "error": err, "calls": [], "sigs": {}})); sys.exit(0)
-dds.accept_module("corp")
+    # a comment-only edit followed by a reload: the signatures must be those a fresh process computes for the new text
+    import dds._api as api
+    import corp.cmt as cmt
+    dds.eval(cmt.top)
+    s_before = dict(api._store()._paths)
+    src = open(cmt.__file__).read().replace("# first wording", "# second wording")
+    open(cmt.__file__, "w").write(src)
+    linecache.checkcache()
+    importlib.reload(cmt)
+    dds.eval(cmt.top)
+    s_after = dict(api._store()._paths)
+    print(json.dumps({"value": repr((r1, r2)), "error": err, "calls": [], "sigs": {}, "cmt_before": s_before, "cmt_after": s_after})); sys.exit(0)
+if mode == "cmt_fresh":
+    dds.accept_module("corp")
+    dds.set_store("memory")
+    import dds._api as api
+    import corp.cmt as cmt
+    dds.eval(cmt.top)
+    print(json.dumps({"value": "", "error": None, "calls": [], "sigs": dict(api._store()._paths)})); sys.exit(0)
+dds.accept_module(pkg)
 opts = json.loads(sys.argv[3]) if len(sys.argv) > 3 else {}
 if "extra_debug" in opts:
     dds.set_option("extra_debug", opts["extra_debug"])
@@ -268,6 +298,14 @@ def main():
                 again = run(d, "dds")  # fresh process, nothing changed
                 if mode == "c02" and again["calls"]:
                     note(None, "restart without any change re-executed %s" % again["calls"])
+                if mode == "c02" and evals == 1:
+                    # the same code copied to another accepted package, same store: nothing is recomputed
+                    shutil.copytree(os.path.join(d, "corp"), os.path.join(d, "corp_copy"), ignore=shutil.ignore_patterns("__pycache__"))
+                    cp = run(d, "dds", env_extra={"CORPUS_PKG": "corp_copy"})
+                    if cp.get("error") or cp["calls"]:
+                        note(None, "code copied unchanged to another accepted module re-executed %s %s" % (cp["calls"], cp.get("error") or ""))
+                    if cp["sigs"] != base["sigs"]:
+                        note(None, "code copied unchanged to another accepted module gets other signatures for %s" % [p for p in ALL if cp["sigs"].get(p) != base["sigs"].get(p)])
                 edit(d, rel, old, new)
                 after = run(d, "dds")
                 plain = run(d, "plain")
@@ -347,6 +385,12 @@ def main():
             evals += 1
             if r.get("error") or r.get("value") != "(2, 5)":
                 note("stale_global_call_cache", "evaluate f (calls g); remove g and the call in the same process; evaluate f again -> %s (a fresh process evaluates the edited module fine)" % (r.get("error") or r.get("value")))
+            fresh = run(dh, "cmt_fresh")  # the file now holds the second wording
+            evals += 1
+            if r.get("cmt_after") is not None and r.get("cmt_after") != fresh.get("sigs"):
+                note(None, "comment-only edit + reload in the same process: signatures %s differ from those of a fresh process %s" % (r.get("cmt_after"), fresh.get("sigs")))
+            if r.get("cmt_after") is not None and r.get("cmt_after") == r.get("cmt_before"):
+                note(None, "comment-only edit + reload in the same process: the signatures did not follow the new source text")
             pinned_file = os.path.join(os.path.dirname(os.path.abspath(__file__)), "pinned_signatures.json")
             if payload["args"].get("write_pinned"):
                 json.dump(base["sigs"], open(pinned_file, "w"), indent=1, sort_keys=True)
